@@ -480,8 +480,28 @@ fn mk_request<T>(body: T, spec: &CallSpec) -> Request<T> {
     r
 }
 
+thread_local! {
+    /// When set to `Some(j)`, the client asks for `trailers()` after reading j messages instead
+    /// of reading the stream to its end first (`trailers()` drains what is left).
+    pub static EARLY_TRAILERS: std::cell::Cell<Option<usize>> = const { std::cell::Cell::new(None) };
+}
+
 async fn drain_stream(view: &mut ClientView, mut st: Streaming<Msg>, events: Option<(&EventLog, &str)>, gate: Option<Arc<Gate>>) {
+    let early = EARLY_TRAILERS.with(|c| c.get());
     loop {
+        if early == Some(view.msgs.len()) {
+            match st.trailers().await {
+                Ok(t) => {
+                    view.end = Some(Ok(()));
+                    view.trailer_meta = t.and_then(|t| meta_multimap(&t).ok());
+                }
+                Err(s) => view.end = Some(Err(view_status(&s))),
+            }
+            if let Some(g) = &gate {
+                g.bump(true);
+            }
+            return;
+        }
         match st.message().await {
             Ok(Some(m)) => {
                 if let Some((ev, id)) = events {
